@@ -418,6 +418,83 @@ pub fn explore_scenario(sc: &Scenario, bound: Option<usize>, cap: u64) -> Result
     Ok(ScOut { sample_traces, findings: findings.into_values().collect(), stats, outcomes })
 }
 
+// ------------------------------------------------------------------------------------------
+// Ceremonies that do NOT overlap, by long-lived authenticators that share the store: every
+// sequence of assertions by X and Y (and registrations by either) in which each ceremony runs to
+// completion before the next starts.  No lost update is possible here, so the oracle is strict:
+// each assertion reports the stored counter plus one and leaves exactly that in the store.
+fn serial_one(lock: u8, seq: &[u8]) -> Vec<(String, String)> {
+    use crate::core::exec::block_on;
+    let m: MemoryStore = seeds().into_iter().map(|p| (p.credential_id.to_vec(), p)).collect();
+    let mut v = vec![];
+    macro_rules! go {
+        ($shared:expr) => {{
+            let shared = $shared;
+            let mk = || {
+                let mut a = Authenticator::new(Aaguid::new_empty(), shared.clone(), ScriptedUv::consenting(Log::new()));
+                a.set_make_credentials_with_signature_counter(true);
+                a
+            };
+            let mut auths = [mk(), mk(), mk()];
+            let mut expect = START;
+            for (k, step) in seq.iter().enumerate() {
+                let who = (*step % 3) as usize;
+                if *step >= 3 {
+                    // a registration by that authenticator in between
+                    let r = block_on(auths[who].make_credential(mc_request(RP, &[0x50, k as u8], None, true, true, true, false, None)));
+                    if r.is_err() {
+                        v.push(("serial-registration-fails".to_string(), format!("step {k} of {seq:?}: registration failed")));
+                    }
+                    continue;
+                }
+                match block_on(auths[who].get_assertion(ga_request(RP, Some(vec![cred_id(1)]), false, true, true, false, None))) {
+                    Err(e) => v.push(("serial-assertion-fails".to_string(), format!("step {k} of {seq:?}: {e:?}"))),
+                    Ok(r) => {
+                        let c = r.auth_data.counter.unwrap_or(0);
+                        let stored = shared.recs().into_iter().find(|r| r.id == cred_id(1)).and_then(|r| r.counter);
+                        expect += 1;
+                        if c != expect || stored != Some(expect) {
+                            v.push(("serial-counter".to_string(), format!("non-overlapping ceremonies {seq:?} (authenticator = step mod 3, step >= 3 registers): assertion at step {k} reports {c}, store holds {stored:?}, expected {expect}")));
+                            break;
+                        }
+                    }
+                }
+            }
+        }};
+    }
+    if lock == 0 {
+        go!(Arc::new(tokio::sync::Mutex::new(m)))
+    } else {
+        go!(Arc::new(tokio::sync::RwLock::new(m)))
+    }
+    v
+}
+fn serial_sequences(tier: Tier, stats: &mut Stats) {
+    let depth = tier.pick(5usize, 6);
+    for lock in 0..2u8 {
+        for d in 2..=depth {
+            for idx in 0..6usize.pow(d as u32) {
+                let mut x = idx;
+                let seq: Vec<u8> = (0..d)
+                    .map(|_| {
+                        let o = (x % 6) as u8;
+                        x /= 6;
+                        o
+                    })
+                    .collect();
+                // at most one registration per sequence keeps the product small
+                if seq.iter().filter(|s| **s >= 3).count() > 1 {
+                    continue;
+                }
+                stats.case(&(lock, &seq, "serial"), true, "serial-sequence");
+                for (k, dd) in serial_one(lock, &seq) {
+                    stats.finding(Finding::new(format!("serial/lock={}/kind={k}", ["mutex", "rwlock"][lock as usize]), dd, json!({"serial": {"lock": lock, "seq": seq}})));
+                }
+            }
+        }
+    }
+}
+
 pub fn run(ctx: &Ctx) -> Result<Run, String> {
     let scs = scenarios(ctx.tier);
     let cap: u64 = ctx.tier.pick(400_000, 5_000_000);
@@ -470,11 +547,12 @@ pub fn run(ctx: &Ctx) -> Result<Run, String> {
     if !contended {
         return Err("C19: the scheduler never had two enabled tasks – nothing was interleaved".into());
     }
+    serial_sequences(ctx.tier, &mut stats);
     let distinct = stats.outcomes.len();
     stats.distinct_nontrivial.extend((0..schedules).map(|i| i));
     let mut run = Run::from_stats(
         "model_checking",
-        "every complete schedule (choice of the next enabled task at every suspension point) of 2 concurrent ceremonies, and every schedule with at most 2 (quick) / 3 (thorough) preemptions of 3 ceremonies (also of two assertions in sequence next to a registration on a store that loses one counter write-back), over Arc<Mutex<_>> and Arc<RwLock<_>> around MemoryStore / Option<Passkey>; suspension points: before every store call (outer shim), inside every store call while the lock is held (inner shim), in the user-validation step, and tokio's lock waits. Each schedule is one distinct execution of the real code; distinct_nontrivial counts schedules",
+        "non-overlapping ceremonies: every sequence of 2..5 (thorough 6) ceremonies by three long-lived authenticators sharing the store (assertions with one credential; at most one registration) in which each ceremony completes before the next starts - strict oracle: each assertion reports stored+1 and leaves it in the store; every complete schedule (choice of the next enabled task at every suspension point) of 2 concurrent ceremonies, and every schedule with at most 2 (quick) / 3 (thorough) preemptions of 3 ceremonies (also of two assertions in sequence next to a registration on a store that loses one counter write-back), over Arc<Mutex<_>> and Arc<RwLock<_>> around MemoryStore / Option<Passkey>; suspension points: before every store call (outer shim), inside every store call while the lock is held (inner shim), in the user-validation step, and tokio's lock waits. Each schedule is one distinct execution of the real code; distinct_nontrivial counts schedules",
         !capped,
         stats,
     );
@@ -487,6 +565,11 @@ pub fn run(ctx: &Ctx) -> Result<Run, String> {
 }
 
 pub fn replay(_ctx: &Ctx, case: &Value) -> Result<Vec<Finding>, String> {
+    if let Some(sr) = case.get("serial") {
+        let lock = sr["lock"].as_u64().unwrap_or(0) as u8;
+        let seq: Vec<u8> = serde_json::from_value(sr["seq"].clone()).map_err(|e| e.to_string())?;
+        return Ok(serial_one(lock, &seq).into_iter().map(|(k, d)| Finding::new(format!("serial/lock={}/kind={k}", ["mutex", "rwlock"][lock as usize]), d, case.clone())).collect());
+    }
     let sc: Scenario = serde_json::from_value(case["scenario"].clone()).map_err(|e| format!("bad C19 case: {e}"))?;
     let choices: Vec<usize> = serde_json::from_value(case["schedule"].clone()).map_err(|e| format!("bad C19 schedule: {e}"))?;
     let (tasks, results, store) = build(&sc);
